@@ -1,5 +1,256 @@
-//! Harness binary for property C03 (line protocol; see /verif/vlib/BUILDER_GUIDE.md).
+//! Harness binary for property C03 (accepted programs never go wrong).
+//!
+//! Line protocol (all lines are independent; they are processed in parallel, answers in order):
+//!   prog {"sources": {"Mod": text, ..}, "entry": "Mod", "std": bool, "run": bool, "ts": bool,
+//!         "strings": bool, "timeout_ms": n}
+//!       -> {"check": "done"|"panic", "nerr": n, "errors": [..], "compile": "ok"|"err"|"panic",
+//!           "msg": .., "validate": "valid"|"invalid: ..", "wasm": {"lines", "end"}, "ts": {..},
+//!           "strings": [template-literal bodies of the emitted GLOBAL_STRING_k constants]}
+//!     pass 1 = the real parser + `type_check_sources` (the accept decision, observed separately),
+//!     pass 2 = the real `compile_sources` under catch_unwind, pass 3 = wasmparser validation of the
+//!     emitted bytes (GC features on), pass 4 = both emitted programs under Node >= 22.
+//!   fold OP a b | merge OUTER INNER c1 c2 | trip G i0 step bound
+//!       -> the optimizer's compile-time arithmetic kernels (same answer format as c02), `panic`
+//!          when the kernel aborts (dev profile: overflow checks on).
+use rayon::prelude::*;
+use samlang_ast::hir::BinaryOperator as B;
+use samlang_errors::ErrorSet;
+use samlang_heap::{Heap, ModuleReference};
+use samlang_optimization::verif_hooks;
+use samverif_harness::exec::*;
+use samverif_harness::util::*;
+use std::collections::HashMap;
+use std::io::BufRead;
+use std::panic::{AssertUnwindSafe, catch_unwind};
+use std::time::Duration;
+
+fn op_of(s: &str) -> Option<B> {
+  Some(match s {
+    "mul" => B::MUL,
+    "div" => B::DIV,
+    "mod" => B::MOD,
+    "add" => B::PLUS,
+    "sub" => B::MINUS,
+    "and" => B::LAND,
+    "or" => B::LOR,
+    "shl" => B::SHL,
+    "shr" => B::SHR,
+    "xor" => B::XOR,
+    "lt" => B::LT,
+    "le" => B::LE,
+    "gt" => B::GT,
+    "ge" => B::GE,
+    "eq" => B::EQ,
+    "ne" => B::NE,
+    _ => return None,
+  })
+}
+
+fn op_name(o: B) -> &'static str {
+  match o {
+    B::MUL => "mul",
+    B::DIV => "div",
+    B::MOD => "mod",
+    B::PLUS => "add",
+    B::MINUS => "sub",
+    B::LAND => "and",
+    B::LOR => "or",
+    B::SHL => "shl",
+    B::SHR => "shr",
+    B::XOR => "xor",
+    B::LT => "lt",
+    B::LE => "le",
+    B::GT => "gt",
+    B::GE => "ge",
+    B::EQ => "eq",
+    B::NE => "ne",
+  }
+}
+
+fn int(s: &str) -> Result<i32, std::num::ParseIntError> {
+  s.parse::<i32>()
+}
+
+fn kernel(t: &[&str]) -> String {
+  let r = catch_unwind(AssertUnwindSafe(|| match t[0] {
+    "fold" if t.len() == 4 => match (op_of(t[1]), int(t[2]), int(t[3])) {
+      (Some(o), Ok(a), Ok(b)) => match verif_hooks::evaluate_bin_op(o, a, b) {
+        Some(v) => format!("v {v}"),
+        None => "nofold".to_string(),
+      },
+      _ => "bad-line".to_string(),
+    },
+    "merge" if t.len() == 5 => match (op_of(t[1]), op_of(t[2]), int(t[3]), int(t[4])) {
+      (Some(o), Some(i), Ok(c1), Ok(c2)) => {
+        match verif_hooks::merge_binary_expression(o, i, c1, c2) {
+          Some((op, c)) => format!("m {} {c}", op_name(op)),
+          None => "none".to_string(),
+        }
+      }
+      _ => "bad-line".to_string(),
+    },
+    "trip" if t.len() == 5 => {
+      let g = match t[1] {
+        "lt" => 0u8,
+        "le" => 1,
+        "gt" => 2,
+        "ge" => 3,
+        _ => return "bad-line".to_string(),
+      };
+      match (int(t[2]), int(t[3]), int(t[4])) {
+        (Ok(i0), Ok(st), Ok(b)) => {
+          match verif_hooks::analyze_number_of_iterations_to_break_guard(i0, st, g, b) {
+            Some(n) => format!("n {n}"),
+            None => "none".to_string(),
+          }
+        }
+        _ => "bad-line".to_string(),
+      }
+    }
+    _ => "bad-op".to_string(),
+  }));
+  r.unwrap_or_else(|_| "panic".to_string())
+}
+
+/// wasmparser validation with the proposals the emitted module uses (GC, function references,
+/// tail calls, ...) switched on.
+fn validate(bytes: &[u8]) -> String {
+  let r = catch_unwind(AssertUnwindSafe(|| {
+    let mut v = wasmparser::Validator::new_with_features(wasmparser::WasmFeatures::all());
+    match v.validate_all(bytes) {
+      Ok(_) => "valid".to_string(),
+      Err(e) => format!("invalid: {e}"),
+    }
+  }));
+  r.unwrap_or_else(|e| format!("invalid: validator panicked: {}", panic_msg(&e)))
+}
+
+/// Bodies of the template literals of `const GLOBAL_STRING_k: _Str = [0, `...` as unknown as number];`
+fn ts_strings(ts: &str) -> Vec<String> {
+  let mut out = Vec::new();
+  let suffix = "` as unknown as number];";
+  for line in ts.lines() {
+    if let Some(rest) = line.strip_prefix("const GLOBAL_STRING_") {
+      if let Some(pos) = rest.find(": _Str = [0, `") {
+        let body = &rest[pos + ": _Str = [0, `".len()..];
+        if let Some(b) = body.strip_suffix(suffix) {
+          out.push(hex(b.as_bytes()));
+        } else {
+          out.push(format!("?{}", hex(body.as_bytes())));
+        }
+      }
+    }
+  }
+  out
+}
+
+fn run_prog(idx: usize, line: &str) -> String {
+  let v: serde_json::Value = match serde_json::from_str(line) {
+    Ok(v) => v,
+    Err(e) => return serde_json::json!({"check": "bad-input", "msg": e.to_string()}).to_string(),
+  };
+  let with_std = v["std"].as_bool().unwrap_or(true);
+  let entry = v["entry"].as_str().unwrap_or("Main").to_string();
+  let run = v["run"].as_bool().unwrap_or(true);
+  let run_ts = v["ts"].as_bool().unwrap_or(true);
+  let want_strings = v["strings"].as_bool().unwrap_or(false);
+  let timeout = Duration::from_millis(v["timeout_ms"].as_u64().unwrap_or(10000));
+  let mut srcs: Vec<(String, String)> = v["sources"]
+    .as_object()
+    .map(|o| o.iter().map(|(k, t)| (k.clone(), t.as_str().unwrap_or("").to_string())).collect())
+    .unwrap_or_default();
+  srcs.sort();
+  // pass 1: the accept decision (parser + checker)
+  let srcs1 = srcs.clone();
+  let check = catch_unwind(AssertUnwindSafe(move || {
+    let heap = &mut Heap::new();
+    let mut error_set = ErrorSet::new();
+    let mut texts: HashMap<ModuleReference, String> = HashMap::new();
+    if with_std {
+      for (m, s) in samlang_parser::builtin_std_raw_sources(heap) {
+        texts.insert(m, s);
+      }
+    }
+    for (name, text) in &srcs1 {
+      let parts: Vec<String> = name.split('.').map(|s| s.to_string()).collect();
+      texts.insert(heap.alloc_module_reference_from_string_vec(parts), text.clone());
+    }
+    let mut parsed = HashMap::new();
+    for (m, t) in &texts {
+      parsed.insert(*m, samlang_parser::parse_source_module_from_text(t, *m, heap, &mut error_set));
+    }
+    let _ = samlang_checker::type_check_sources(&parsed, &mut error_set);
+    let n = error_set.errors().len();
+    let rendered = error_set.pretty_print_error_messages(heap, &texts);
+    (n, rendered)
+  }));
+  let mut ans = serde_json::Map::new();
+  match check {
+    Ok((n, rendered)) => {
+      ans.insert("check".into(), "done".into());
+      ans.insert("nerr".into(), n.into());
+      let short: String = rendered.chars().take(600).collect();
+      ans.insert("errors".into(), short.into());
+    }
+    Err(e) => {
+      ans.insert("check".into(), "panic".into());
+      ans.insert("nerr".into(), (-1).into());
+      ans.insert("errors".into(), panic_msg(&e).into());
+    }
+  }
+  // pass 2: the real compile_sources
+  match compile_program(&srcs, &entry, with_std) {
+    CompileOutcome::Errors(e) => {
+      ans.insert("compile".into(), "err".into());
+      ans.insert("msg".into(), e.chars().take(300).collect::<String>().into());
+    }
+    CompileOutcome::Panic(m) => {
+      ans.insert("compile".into(), "panic".into());
+      ans.insert("msg".into(), m.into());
+    }
+    CompileOutcome::Ok(c) => {
+      ans.insert("compile".into(), "ok".into());
+      ans.insert("wasm_bytes".into(), c.wasm.len().into());
+      ans.insert("validate".into(), validate(&c.wasm).into());
+      if want_strings {
+        ans.insert("strings".into(), ts_strings(&c.ts).into());
+      }
+      if run {
+        let runs = run_compiled(&c, &scratch_dir("c03", idx), timeout, run_ts);
+        ans.insert("wasm".into(), serde_json::json!({"lines": runs.wasm.lines, "end": runs.wasm.end}));
+        ans.insert("ts".into(), serde_json::json!({"lines": runs.ts.lines, "end": runs.ts.end}));
+      }
+    }
+  }
+  serde_json::Value::Object(ans).to_string()
+}
+
 fn main() {
-  eprintln!("c03: not implemented yet");
-  std::process::exit(2);
+  std::panic::set_hook(Box::new(|_| {}));
+  let lines: Vec<String> = std::io::stdin()
+    .lock()
+    .lines()
+    .map(|l| l.unwrap())
+    .map(|l| l.trim_end().to_string())
+    .filter(|l| !l.is_empty())
+    .collect();
+  let answers: Vec<String> = lines
+    .par_iter()
+    .enumerate()
+    .map(|(i, line)| {
+      let (op, rest) = line.split_once(' ').unwrap_or((line.as_str(), ""));
+      match op {
+        "prog" => run_prog(i, rest),
+        "fold" | "merge" | "trip" => {
+          let t: Vec<&str> = line.split(' ').filter(|s| !s.is_empty()).collect();
+          kernel(&t)
+        }
+        other => format!("bad-op {other}"),
+      }
+    })
+    .collect();
+  cleanup_scratch("c03");
+  for a in answers {
+    println!("{a}");
+  }
 }
